@@ -3,6 +3,8 @@
 # Configures+builds <source-dir> into <source-dir>/_build (Ninja, RelWithDebInfo) and runs the
 # pinned ctest command; prints which of the 30 stable-baseline tests failed.
 set -u
+# one suite at a time on this machine: every test process allocates 4 GiB of ring memory
+exec 9>/tmp/.run_baseline.lock; flock 9
 S=${1:?source dir}; R=${2:-}
 B=$S/_build
 if [ ! -f $B/build.ninja ]; then cmake -G Ninja -S $S -B $B -DCMAKE_BUILD_TYPE=RelWithDebInfo >$B.configure.log 2>&1 || { echo CONFIGURE-FAILED; tail -20 $B.configure.log; exit 2; }; fi
